@@ -358,6 +358,12 @@ func (c *rigConn) Recycle() {
 		c.returns++
 		c.pool.inUse--
 		c.returnTime = time.Now()
+		if !c.closed {
+			// connectionPoolImpl.Put -> ResetConnection: a returned connection is rolled
+			// back and set to autocommit=1 before it is handed out again
+			c.inTx, c.autocommit = false, true
+			c.moreRows, c.moreResults = 0, 0
+		}
 		if !c.closed && !c.pool.closed {
 			c.pool.idle = append(c.pool.idle, c)
 		}
